@@ -151,11 +151,11 @@ BOUNDS = {
     "quick": "machine A (3 states, guarded + fallback candidates, callbacks taking event arguments positionally and keyword-only) driven by 3 `go` events; before "
     "each of the first two events one disturber out of {none, define an unrelated class with A's qualified class and method names but other signatures, define and "
     "drive it, create and drive a second A (between A's events, and from inside one of A's own callbacks), create siblings with other start_value, define a subclass of A that adds an event on A's states, define a subclass using from_.any(), define a lambda-bearing "
-    "class}; optionally another machine over a model of the same class but other instance-level hooks created first; an instance of A created after all disturbances is checked as well; disturbers also: an unrelated class whose state ids equal A's guard/callback names, a sibling A with a coroutine listener; an unrelated class with A's name and equally declared states that refuses `go` (and an unknown event) in `a` and is driven; a sample of the 12x12 disturber pairs; a separate scenario: a class whose guard/action names are provided only by the model or a listener - an instance without a provider is rejected whether it is the first instance or follows good (driven) ones, and good instances obey their own model's guard; A's trace, states, allowed events, argument binding and result compared with A alone.",
+    "class}; optionally another machine over a model of the same class but other instance-level hooks created first; an instance of A created after all disturbances is checked as well; disturbers also: an unrelated class whose state ids equal A's guard/callback names, a sibling A with a coroutine listener; an unrelated class with A's name and equally declared states that refuses `go` (and an unknown event) in `a` and is driven; a sample of the 12x12 disturber pairs; a separate scenario: a class whose guard/action names are provided only by the model or a listener - what happens to an instance without a provider (today: InvalidDefinition) is the same whether it is the first instance of the class or follows good (driven) ones - compared with an identical fresh class - and good instances obey their own model's guard; A's trace, states, allowed events, argument binding and result compared with A alone.",
     "thorough": "all 144 disturber pairs.",
 }
 OUTSIDE = "interleavings across OS threads; more than two disturbers per history; pickling (C17)"
-OBLIGATIONS = ["unresolvable-instance-rejected", "model-guard-decides", "same-names-refusing", "clashing-state-ids", "async-sibling", "driven-inside-callback", "sibling-start-values", "same-names-kwonly-first", "model-of-same-class-before", "undisturbed", "same-names-defined", "second-instance", "subclass-defined", "binding-checked"]
+OBLIGATIONS = ["bad-instance-verdict-stable", "model-guard-decides", "same-names-refusing", "clashing-state-ids", "async-sibling", "driven-inside-callback", "sibling-start-values", "same-names-kwonly-first", "model-of-same-class-before", "undisturbed", "same-names-defined", "second-instance", "subclass-defined", "binding-checked"]
 ASSUMPTIONS = [
     "the library's process-wide signature cache is emptied (through its own clear_cache hook, when present) at the start of every path, so that a path is a complete history",
     "A's expected behaviour is a table (A alone); comparing with a re-run would share the caches under test",
@@ -176,19 +176,24 @@ def reset_process_caches():
 
 
 def run_model_guard(ctx, params):
-    """A guard given by name and provided by the model (or a listener) only: whether the constructor accepts an
-    instance depends on that instance's own model / listeners, not on the instances created before it."""
+    """A guard given by name and provided by the model (or a listener) only.  What happens to an instance whose own
+    model / listener does not provide the name (today: the constructor raises InvalidDefinition) must not depend on the
+    instances created before it: the verdict is compared with that of an identical, fresh class where the same instance
+    comes first.  Good instances obey their own provider's guard."""
     from statemachine import State, StateMachine
-    from statemachine.exceptions import InvalidDefinition
 
-    with ctx.notracing():
-        reset_process_caches()
-
+    def make_G():
         class G(StateMachine):
             a = State(initial=True)
             b = State()
             go = a.to(b, cond="permit")
             stay = b.to.itself(on="note_it")
+
+        return G
+
+    with ctx.notracing():
+        reset_process_caches()
+        G, Gref = make_G(), make_G()
 
     class Good:
         def __init__(self, v):
@@ -209,27 +214,40 @@ def run_model_guard(ctx, params):
     via = ["model", "listener"][ctx.choose(2, "via")]
     order = ["bad-first", "good-first", "good-driven-first", "bad-good-bad"][ctx.choose(4, "order")]
 
-    def make(good, v=None):
+    def make(cls, good, v=None):
         if via == "model":
-            return G(Good(v) if good else Bad())
-        return G(listeners=[Good(v) if good else Bad()])
+            return cls(Good(v) if good else Bad())
+        return cls(listeners=[Good(v) if good else Bad()])
 
-    def expect_rejected(when):
+    def bad_verdict(cls):
+        """('rejected', exception type) or ('accepted', state before, outcome of go, state after)."""
         try:
-            sm_ = make(False)
-        except InvalidDefinition:
-            ctx.cover("unresolvable-instance-rejected")
-            return
-        where = sm_.current_state.id
+            sm_ = make(cls, False)
+        except Exception as e:  # noqa: BLE001
+            if type(e).__name__ == "NotDeterministic":
+                raise
+            return ("rejected", type(e).__name__)
+        before = sm_.current_state.id
         try:
             sm_.send("go")
-        except Exception:  # noqa: BLE001
-            pass
-        raise Mismatch(f"unresolvable-guard-accepted:{via}:{when}", f"G's guard `permit` is provided by no one for this instance ({via} without it), the constructor accepted it {when}; it started in {where} and after `go` is in {sm_.current_state.id}")
+            out = "ret"
+        except Exception as e:  # noqa: BLE001
+            if type(e).__name__ == "NotDeterministic":
+                raise
+            out = type(e).__name__
+        return ("accepted", before, out, sm_.current_state.id)
+
+    reference = bad_verdict(Gref)  # the same instance as the FIRST instance of an identical class
+
+    def expect_same(when):
+        got = bad_verdict(G)
+        if got != reference:
+            raise Mismatch(f"verdict-on-instance-depends-on-earlier-instances:{via}:{when}", f"an instance whose {via} does not provide the guard `permit`: as the first instance of the class {reference}, {when} {got}")
+        ctx.cover("bad-instance-verdict-stable")
 
     def good_works(when):
         v = ctx.sym_bool(f"permit.{when}")
-        g = make(True, v)
+        g = make(G, True, v)
         try:
             g.send("go")
             moved = True
@@ -241,19 +259,19 @@ def run_model_guard(ctx, params):
         ctx.cover("model-guard-decides")
 
     if order == "bad-first":
-        expect_rejected("as the first instance")
+        expect_same("as the first instance")
         good_works("after-bad")
     elif order == "good-first":
-        make(True, True)
-        expect_rejected("after a good instance was created")
+        make(G, True, True)
+        expect_same("after a good instance was created")
     elif order == "good-driven-first":
         good_works("first")
-        expect_rejected("after a good instance was created and driven")
+        expect_same("after a good instance was created and driven")
         good_works("last")
     else:
-        expect_rejected("as the first instance")
+        expect_same("as the first instance")
         good_works("middle")
-        expect_rejected("after a rejected and a good instance")
+        expect_same("after a rejected and a good instance")
 
 
 def run(ctx, params):
